@@ -17,7 +17,7 @@ pub fn vx_from_digit(d: u32, radix: u32) -> (r: Option<char>)
         2 <= radix <= 36,
     ensures
         r is Some <==> d < radix,
-        r is Some ==> dv(r->Some_0) == Some(d as int) && r->Some_0 != '.' && r->Some_0 != '-' && r->Some_0 != '[' && r->Some_0 != ']',
+        r is Some ==> dv(r->Some_0) == Some(d as int) && (r->Some_0 as u32) < 0x80 && r->Some_0 != '.' && r->Some_0 != '-' && r->Some_0 != '[' && r->Some_0 != ']',
 {
     core::char::from_digit(d, radix)
 }
